@@ -10,4 +10,9 @@ EmitScn == phase = "adds" => Emit([t |-> "SCN", kind |-> "set", path |-> path, i
 Names == << <<>>, <<1>>, <<2>>, <<1, 0>> >>
 Perms == {p \in [1..4 -> 1..4] : \A i, j \in 1..4 : i # j => p[i] # p[j]}
 ASSUME \A p \in Perms : \A q \in {<<1, 2>>, <<2, 1>>} : Emit([t |-> "SCN", kind |-> "assets", order |-> [i \in 1..4 |-> [p |-> q[1 + (i % 2)], n |-> Names[p[i]]]]])
+\* names of 23 / 24 / 25 / 32 bytes under ONE policy: from 24 bytes on the length no longer sits in the head byte of the key, and the longer
+\* names here are bytewise SMALLER than the shorter ones (canonical order is by length first)
+Rep(n, b) == [i \in 1..n |-> b]
+LongNames == << Rep(23, 4), Rep(24, 3), Rep(25, 2), Rep(32, 1) >>
+ASSUME \A p \in Perms : Emit([t |-> "SCN", kind |-> "assets", order |-> [i \in 1..4 |-> [p |-> 1, n |-> LongNames[p[i]]]]])
 ====
